@@ -499,7 +499,7 @@ def run_check(a, prop, tier, seed, spec, scratch, t_start):
         return 2 if exit_code == 0 else exit_code
     if evaluations == 0:
         die2("no world was run")
-    if judged == 0 and prop != "SMOKE":
+    if judged == 0 and prop != "SMOKE" and exit_code == 0:
         die2("the oracle made no judgement at all")
     return exit_code
 
